@@ -105,7 +105,11 @@ func bvRunV0(w *bvWorld, stream [][]byte) (res *bvV0Result) {
 	var keys []pset.IssuanceBlindingPrivateKeys
 	if sh.IssKeys {
 		for _, wi := range w.ins {
-			keys = append(keys, pset.IssuanceBlindingPrivateKeys{AssetKey: wi.blindPriv, TokenKey: wi.blindPriv})
+			k := pset.IssuanceBlindingPrivateKeys{AssetKey: wi.blindPriv, TokenKey: wi.blindPriv}
+			if sh.NoTokKey {
+				k.TokenKey = nil
+			}
+			keys = append(keys, k)
 		}
 	}
 	pos := 0
@@ -298,6 +302,10 @@ func bvGenCommon(r *Rng, nIn, maxOut int, v0 bool, forceReiss bool) *bvShape {
 			sh.Ins[i].IssValue = bvRandValue(r)
 			sh.Ins[i].IssToken = uint64(r.Pick(0, 1, 1, 5))
 			sh.Ins[i].IssBlinded = r.Bool()
+			if !v0 && r.Chance(30) { // a packet made elsewhere: no blinded-issuance flag field
+				sh.Ins[i].IssBlinded = false
+				sh.Ins[i].IssNoFlag = true
+			}
 		}
 	}
 	// totals per asset
@@ -332,7 +340,11 @@ func bvGenCommon(r *Rng, nIn, maxOut int, v0 bool, forceReiss bool) *bvShape {
 		}
 		budget -= m
 		for _, v := range bvSplit(r, tot[a], m) {
-			sh.Outs = append(sh.Outs, bvOut{Asset: a, Value: v, Blind: r.Chance(85)})
+			pb := 85
+			if a >= 200 && a-200 < len(sh.Ins) && sh.Ins[a-200].IssNoFlag {
+				pb = 35 // leave the token output explicit more often
+			}
+			sh.Outs = append(sh.Outs, bvOut{Asset: a, Value: v, Blind: r.Chance(pb)})
 		}
 	}
 	// shuffle outputs, make sure one is blinded
@@ -579,7 +591,7 @@ func bvGenV2Shape(r *Rng) *bvShape {
 	}
 	for i, in := range sh.Ins {
 		// BlindIssuances only accepts the issuance of the last input (index check), ask elsewhere rarely
-		if in.Iss != 0 && r.Chance(55) && (i == nIn-1 || r.Chance(15)) {
+		if in.Iss != 0 && (r.Chance(55) || in.IssNoFlag) && (i == nIn-1 || r.Chance(15)) {
 			sh.Parties[owner[i]].Iss = []uint32{uint32(i)}
 		}
 	}
@@ -657,6 +669,7 @@ func bvGenV0Shape(r *Rng) *bvShape {
 		sh.Ins[i].IssBlinded = false
 	}
 	sh.IssKeys = force || r.Chance(60)
+	sh.NoTokKey = sh.IssKeys && !force && r.Chance(25)
 	if r.Chance(20) {
 		sh.Ctor0 = 1
 	}
